@@ -8,7 +8,15 @@ TRUSTED = ["strings are ASCII (Go's rune conversion and Unicode ToLower are not 
 ASSUMPTIONS = ["envconfig's comma split of list values (modelled, validated by running the real config.Process)"]
 
 
+def project(kind, ins, outs):
+    if kind == "smtp" and len(outs) >= 6:
+        return [outs[0], outs[4], outs[5]]
+    return outs
+
+
 def nontrivial(kind, ins, outs):
+    if kind == "smtp":
+        return len(outs) >= 6 and (outs[4] != "-" or "550" in outs[0] or "552" in outs[0])
     if kind == "wild":
         p = bytes.fromhex(ins[0]) if ins[0] != "-" else b""
         return bool(p) and ins[1] != "-" and (b"*" in p or b"?" in p)
